@@ -57,14 +57,17 @@ def run_cmd(fn, opts, cli=None):
     """cli: 'adm_ledger' / 'adm_sgx' -> the same verification through the tool's own
     command line (argument parser, defaults, dispatch table, exit status)"""
     buf = io.StringIO()
-    if cli and all(isinstance(v, str) and not v.startswith("-") for v in vars(opts).values()):
+    if cli and all(v is None or (isinstance(v, str) and not v.startswith("-"))
+                   for v in vars(opts).values()):
         import sys
         import logging
         import importlib
         mod = importlib.import_module(cli)
         argv = [cli + ".py", "verify_attestation",
                 "-t", opts.attestation_certificate_file_path,
-                "-b", opts.pubkeys_file_path, "-r", opts.root_authority]
+                "-b", opts.pubkeys_file_path]
+        if opts.root_authority is not None:
+            argv += ["-r", opts.root_authority]
         saved = sys.argv
         sys.argv = argv
         try:
@@ -477,12 +480,36 @@ def sgx_case(acc, rng, variant, tmpdir, case):
         # a path that is not a file makes the tool try to fetch it as a URL (no network)
         rootp = os.path.join(tmpdir, "nonexistent.pem")
         expect_ok = False
+    # how the root of trust reaches the tool: a file (-r path), a URL (-r url) or the
+    # built-in default URL (no -r).  The same URLs serve a different root in every case,
+    # as a web server whose certificate was replaced would.
+    from ..fakenet import FakeWeb
+    import admin.verify_sgx_attestation as vsa
+    delivery = rng.choice(["file", "file", "url", "default-url"])
+    if variant == "root-missing-file":
+        delivery = "file"
+    web = FakeWeb()
+    if delivery == "url":
+        rootp = "https://certificates.example/sgx/root.pem"
+        web.serve(rootp, g2.pem(root_cert))
+    elif delivery == "default-url":
+        web.serve(vsa.DEFAULT_ROOT_AUTHORITY, g2.pem(root_cert))
+        rootp = None
+    if delivery != "file" and expect_ok and rng.random() < 0.1:
+        # the server answers, but not with the document
+        st = rng.choice([404, 500, 301, 204])
+        web.serve(rootp or vsa.DEFAULT_ROOT_AUTHORITY, g2.pem(root_cert), status=st)
+        expect_ok = False
+        variant += "-http-%d" % st
+    acc.count("root_of_trust_delivered_by_" + delivery.replace("-", "_"))
     opts = SimpleNamespace(attestation_certificate_file_path=certp, pubkeys_file_path=pkp,
                            root_authority=rootp)
     cli = "adm_sgx" if rng.random() < 0.5 else None
     if cli:
         acc.count("verifications_through_the_command_line")
-    ok, out, exc = run_cmd(do_verify_attestation, opts, cli)
+    with web:
+        ok, out, exc = run_cmd(do_verify_attestation, opts, cli)
+    acc.count("root_of_trust_fetches", len(web.fetches))
     acc.evaluations += 1
     acc.distinct.add("sgx|%d|%s" % (len(m.certs), variant))
     label = "sgx:%s" % variant
